@@ -95,6 +95,20 @@ impl DpAggregatesParameters {
 
 impl Relation {
     fn gaussian_mechanisms(self, epsilon: f64, delta: f64, bounds: Vec<(&str, f64)>) -> DpRelation {
+        #[cfg(feature = "verif-hooks")]
+        for (name, bound) in bounds.iter() {
+            crate::verif_hooks::emit(
+                "gaussian_mechanism",
+                vec![
+                    ("relation", self.name().into()),
+                    ("column", (*name).into()),
+                    ("bound", (*bound).into()),
+                    ("epsilon", epsilon.into()),
+                    ("delta", delta.into()),
+                    ("n", bounds.len().into()),
+                ],
+            );
+        }
         if epsilon > 1. {
             // Cf. Theorem A.1. in (Dwork, Roth et al. 2014)
             log::warn!("Warning, epsilon>1 the gaussian mechanism applied will not be exactly epsilon,delta-DP!")
